@@ -213,7 +213,7 @@ def check(pid, tier, seed):
         binaries.append(("plain", build_plain()))
     known = load_known(pid)
     known_keys = [k["oracle"] + "|" + k["class"] for k in known]
-    replay_dir = os.path.join(VERIF, "replays")
+    replay_dir = os.environ.get("VERIF_REPLAY_DIR") or os.path.join(VERIF, "replays")
     os.makedirs(replay_dir, exist_ok=True)
     os.makedirs(os.path.join(VERIF, "evidence"), exist_ok=True)
 
